@@ -926,3 +926,62 @@ def do_log_search(req):
 
 
 HANDLERS.update({'log_case': do_log_case, 'log_search': do_log_search})
+
+
+# ------------------------------------------------------------------------------ C19 replays
+def do_codes_case(req):
+    from pykdebugparser.trace_codes import from_trace_codes_text
+    lines = req['lines']            # [[hex text, name, rest]]
+    text = '\n'.join('%s%s%s%s' % (h, sep, nm, rest) for h, sep, nm, rest in lines)
+    exp = {}
+    for h, sep, nm, rest in lines:
+        exp[int(h, 16)] = nm
+    try:
+        got = from_trace_codes_text(text)
+    except BaseException as ex:  # noqa
+        return {'violates': True, 'what': 'from_trace_codes_text raised %s: %s on %r' % (type(ex).__name__, ex, text)}
+    return {'violates': dict(got) != exp, 'what': 'mapping %r, expected %r for text %r' % (dict(got), exp, text) if dict(got) != exp else ''}
+
+
+def do_codes_search(req):
+    import random
+    rnd = random.Random(req.get('seed', 0))
+    tried = 0
+    while tried < req.get('budget', 300):
+        lines = []
+        for _ in range(rnd.randint(0, 5)):
+            v = rnd.choice([0, 4, 0x40c0004, 0xffffffff, rnd.getrandbits(32), 8, 8])
+            h = rnd.choice(['%x', '0x%x', '0X%X', '%X', '0x%08x']) % v
+            lines.append([h, rnd.choice([' ', '\t', '  \t ']), rnd.choice(['BSC_a', 'Zz', 'aa', 'MACH_x', 'n1']),
+                          rnd.choice(['', ' ', '\t\t#Params: a b', ' trailing words here'])])
+        tried += 1
+        r = do_codes_case({'lines': lines})
+        if r['violates']:
+            r['request'] = {'kind': 'codes_case', 'lines': lines}
+            return {'tried': tried, 'found': r}
+    return {'tried': tried, 'found': None}
+
+
+def do_codetable_vmfault(req):
+    """a supplied table that gives the fault-address decoder's name another id: is the nested record still used?"""
+    from pykdebugparser.traces_parser import TracesParser
+    codes = dict(_cached_codes())
+    inv = {v: k for k, v in codes.items()}
+    old = inv['RealFaultAddressInternal']
+    new = 0x13200f0
+    del codes[old]
+    codes[new] = 'RealFaultAddressInternal'
+    p = TracesParser(codes, {}, {})
+    vm = inv['MACH_vmfault']
+    evs = [_mk_kevent(vm, 5, 1, (0x10, 0x20, 0, 0)), _mk_kevent(new, 5, 0, (0x1000, (41 << 16) | (3 << 8) | 2, 5, 6)),
+           _mk_kevent(vm, 5, 2, (0, 0, 0, 2))]
+    out = [p.feed(e) for e in evs]
+    standalone = out[1]
+    fault = out[2]
+    return {'standalone_decoded': str(standalone), 'fault_pid': getattr(fault, 'pid', None),
+            'violates': standalone is not None and getattr(fault, 'pid', None) is None,
+            'what': 'under a table that gives RealFaultAddressInternal the id %#x the record is decoded on its own (%s) but the page-fault trace '
+                    'does not take pid/protection from it (nested records are recognised by the id range 0x1320008..0x1320014)' % (new, standalone)}
+
+
+HANDLERS.update({'codes_case': do_codes_case, 'codes_search': do_codes_search, 'codetable_vmfault': do_codetable_vmfault})
